@@ -19,7 +19,7 @@ from typing import Any, Callable
 from ..absint import Raised, Record, Unsupported
 from ..index import AnchorError, FuncNode
 from ..selftest import Twin
-from .c28 import FakeConn, FakeDT, MiniDB, ModelObject, Runner, SqlUnsupported, World, _bind_migrations, model_unsupported
+from .c28 import IN_BLOCKS_OLD, IN_TABLE_ROWS, FakeConn, FakeDT, MiniDB, ModelObject, Runner, SqlUnsupported, World, _bind_migrations, model_unsupported, in_blocks_table_driven
 
 EXPLANATION = (
     "All rules interpret the AST of the store classes over finite domains (no repo code runs). The oracle `spec` is the statement: a handler "
@@ -635,6 +635,15 @@ _PS = "packages/llama-agents-server/src/llama_agents/server/_store/sqlite/sqlite
 _PA = "packages/llama-agents-server/src/llama_agents/server/_store/abstract_workflow_store.py"
 
 TWINS: list[Twin] = [
+    # ---- R1: sqlite filters driven by a module-level table, the query fields read with getattr()
+    Twin("benign: sqlite IN filters driven by a module-level (column, attribute) table read with getattr", _PS, IN_BLOCKS_OLD, in_blocks_table_driven(), None),
+    Twin("benign: getattr with a default on a field that exists", _PS, IN_BLOCKS_OLD, in_blocks_table_driven(read="getattr(query, attr_name, None)"), None),
+    Twin("sqlite table-driven: run_id values matched against the handler_id column", _PS, IN_BLOCKS_OLD,
+         in_blocks_table_driven(IN_TABLE_ROWS.replace('("run_id", "run_id_in")', '("handler_id", "run_id_in")')), "C24.R1"),
+    Twin("sqlite table-driven: a row of the table lost (status filter ignored)", _PS, IN_BLOCKS_OLD,
+         in_blocks_table_driven(IN_TABLE_ROWS.replace(', ("status", "status_in")', "")), "C24.R1"),
+    Twin("sqlite table-driven: misspelt attribute hidden by a getattr default (status filter ignored)", _PS, IN_BLOCKS_OLD,
+         in_blocks_table_driven(IN_TABLE_ROWS.replace('"status_in"', '"statuses_in"'), read="getattr(query, attr_name, None)"), "C24.R1"),
     # ---- R1 breaking
     Twin("memory: is_idle=False ignored", _PM, "if query.is_idle != handler_is_idle:", "if query.is_idle and not handler_is_idle:", "C24.R1"),
     Twin("sqlite: is_idle tested by truthiness (False means no filter)", _PS, "        if query.is_idle is not None:\n            if query.is_idle:", "        if query.is_idle:\n            if query.is_idle:", "C24.R1"),
